@@ -22,7 +22,7 @@ RULE = (
 )
 TIERS = {"quick": {"shards": 8, "n": 250, "budget_s": 220}, "thorough": {"shards": 16, "n": 2000, "budget_s": 2700}}
 FLOOR = {"quick": 80, "thorough": 4000}
-REQUIRED_LABELS = {"quick": ["bulk-strict-slice", "crud:C", "crud:R", "crud:D", "crud:CRD", "name:multi-word", "models=2", "table:titlecases-to-class", "pk:explicit"], "thorough": []}
+REQUIRED_LABELS = {"quick": ["bulk-strict-slice", "crud:C", "crud:R", "crud:D", "crud:CRD", "name:multi-word", "models=2", "table:titlecases-to-class", "pk:explicit", "upsert-into-existing-routes"], "thorough": []}
 ASSUMPTIONS = ["the strict slice for openapi_bulk is: explicit or inferable PK among the generated columns, no ForeignKey, table name that title-cases to the class name (P16, P32, P33 cover the rest); cdd.compound.openapi.emit.openapi has no open class"]
 COLS = {"int": "Integer", "str": "String", "bool": "Boolean", "float": "Float"}
 CRUDS = ["C", "R", "D", "CR", "CD", "RD", "CRD"]
@@ -63,7 +63,7 @@ def model(draw, used):
     elif pk == "inferable":
         cols[0]["name"] = pk_name = draw(st.sampled_from(["id", cols[0]["name"] + "_id"]))
         cols[0].update(typ="int", nullable=False, fk=False)
-    return {"emitted": draw(st.integers(0, 2)) == 0, "doc_cols": draw(st.booleans()), "cls": cls, "tbl": tbl, "tbl_kind": tbl_kind, "cols": cols, "pk": pk, "pk_name": pk_name, "crud": draw(st.sampled_from(CRUDS)), "multi": len(words) > 1}
+    return {"emitted": draw(st.integers(0, 2)) == 0, "doc_cols": draw(st.booleans()), "cls": cls, "tbl": tbl, "tbl_kind": tbl_kind, "cols": cols, "pk": pk, "pk_name": pk_name, "crud": draw(st.sampled_from(CRUDS)), "crud0": draw(st.sampled_from([None, None, "C", "R", "D", "CR", "RD"])), "multi": len(words) > 1}
 
 
 @st.composite
@@ -236,9 +236,12 @@ def oracle(case):
             route = "%s/%s" % (case["prefix"], m["cls"].lower())
             try:
                 with core.quiet():
-                    routes, pkey = cdd.compound.openapi.gen_routes.gen_routes(app=case["app"], model_path=mp, model_name=m["cls"], crud=m["crud"], route=route)
-                    routes = list(routes)
-                    cdd.compound.openapi.gen_routes.upsert_routes(app=case["app"], routes=iter(routes), routes_path=rp, route=route, primary_key=pkey)
+                    # history: an earlier upsert of another CRUD subset into the same routes file (the merge path of
+                    # upsert_routes); afterwards the file must serve the UNION of both requests, each operation once
+                    for crud in ([m["crud0"]] if m.get("crud0") else []) + [m["crud"]]:
+                        routes, pkey = cdd.compound.openapi.gen_routes.gen_routes(app=case["app"], model_path=mp, model_name=m["cls"], crud=crud, route=route)
+                        routes = list(routes)
+                        cdd.compound.openapi.gen_routes.upsert_routes(app=case["app"], routes=iter(routes), routes_path=rp, route=route, primary_key=pkey)
             except Exception as e:
                 if known:
                     r.covered(known)
@@ -255,7 +258,14 @@ def oracle(case):
                 r.fail("routes-not-python", "%s: %s" % (m["cls"], e))
             mpaths.append(mp)
             rpaths.append(rp)
-            exp.update(expected(route, pkey, m["crud"]))
+            exp.update(expected(route, pkey, "".join(sorted(set(m["crud"]) | set(m.get("crud0") or "")))))
+            if m.get("crud0"):
+                r.label("upsert-into-existing-routes")
+                src_routes = open(rp).read()
+                n_defs = sum(isinstance(x, __import__("ast").FunctionDef) for x in __import__("ast").parse(src_routes).body)
+                n_want = len(set(m["crud"]) | set(m["crud0"]))
+                if n_defs != n_want:
+                    r.fail("upsert-duplicates", "%s: routes file holds %d route functions after upserting %s then %s (want %d)" % (m["cls"], n_defs, m["crud0"], m["crud"], n_want))
         try:
             with core.quiet():
                 docB = cdd.compound.openapi.gen_openapi.openapi_bulk(app_name=case["app"], model_paths=mpaths, routes_paths=rpaths)
